@@ -36,6 +36,7 @@ HEADER = ('From PV Require Import Base.Prelude Base.Decimal Resp.Grammar Resp.Pr
 
 
 JOBS = []
+JOB_HEADERS = {}    # job name prefix -> Coq header (default: HEADER)
 
 
 def submit(ctx, name, typ, cases, checker, shard, describe) -> None:
@@ -65,7 +66,8 @@ def flush_jobs(ctx) -> None:
 
     def one(job):
         name, typ, cases, checker, shard, describe = job
-        return job, ctx.run_cases(name, HEADER, typ, cases, checker, shard=shard, jobs=4)
+        hdr = next((h for k, h in JOB_HEADERS.items() if name.startswith(k)), HEADER)
+        return job, ctx.run_cases(name, hdr, typ, cases, checker, shard=shard, jobs=4, timeout=1800)
     with ThreadPoolExecutor(max_workers=8) as ex:
         for job, bad in ex.map(one, JOBS):
             for i in bad[:5]:
@@ -1144,7 +1146,80 @@ def section_producer(ctx) -> None:
     RECORDER.producer = []
 
 
-SECTIONS = [section_print, section_leaves, section_live, section_producer]
+# ============================================== (v) the FETCH value producer
+def section_fetch_producer(ctx) -> None:
+    """pymap/fetch.py + message.py + mime on hostile messages vs
+    Resp/FetchProducer.v (see harness/c07fetch.py)"""
+    from .. import c07fetch as F
+    from .. import mime_c03 as M
+    rng = ctx.rng
+    msgs = list(F.TARGETED)
+    for _ in range(ctx.scale(45, 400)):
+        msgs.append(gen_message(rng))
+    for _ in range(ctx.scale(20, 200)):
+        msgs.append(M.gen_message(rng, max_depth=3))
+    if ctx.quick:
+        values = [0x00, 0x09, 0x0a, 0x0d, 0x20, 0x22, 0x28, 0x2a, 0x2d, 0x2b, 0x2f, 0x3b, 0x3d, 0x4d,
+                  0x54, 0x58, 0x5c, 0x6d, 0x74, 0x78, 0x7f, 0x80, 0xe9, 0xff]
+    else:
+        values = range(256)
+    for base in F.CT_SWEEP_BASES:
+        for v in values:
+            msgs.append(base.replace(b'?', bytes([v])))
+    cases, keep = [], []
+    hist = {'raised': 0, 'multi': 0, 'msg': 0, 'nonid': 0}
+    for d in msgs:
+        if len(d) > 6000:
+            continue
+        meta = F.gen_meta(rng)
+        seq = rng.choice([1, 2, 77, 4294967295])
+        texts = F.gen_attr_texts(rng)
+        try:
+            obs, raised = F.observe(d, texts, meta, seq)
+        except Exception as exc:
+            ctx.failure('fetch_producer_raises', f'building the FETCH values raised {exc!r}',
+                        {'message': d.hex(), 'attrs': [t.decode('latin-1') for t in texts]},
+                        {'kind': 'fetch_producer_raises'})
+            continue
+        hist['raised'] += len(raised)
+        if obs is None:
+            continue
+        hist['nonid'] += len(obs['dec'])
+        hist['multi'] += obs['whole'].count(b'"multipart"') + obs['whole'].count(b' "mixed"')
+        hist['msg'] += obs['whole'].lower().count(b'"message" "rfc822"')
+        ctx.count(('fetch_producer', obs['whole']), nontrivial=True)
+        bad = G.check_transcript(obs['whole'])
+        if bad:
+            v = bad[0]
+            ctx.failure(v['kind'], f'FETCH response built from a hostile message is ill-formed '
+                        f'({v["expected"]} at {v["at"]}): {obs["whole"][:300]!r}',
+                        {'message': d.hex(), 'attrs': [t.decode('latin-1') for t in obs['attr_texts']],
+                         'bytes': obs['whole'].hex()}, {'kind': v['kind']})
+        cases.append(F.e_case(obs))
+        keep.append(obs)
+    if keep:
+        ctx.sample({'fetch_producer_message': keep[-1]['d'][:200].decode('latin-1'),
+                    'response': keep[-1]['whole'][:300].decode('latin-1')})
+    ctx.extra['fetch_producer'] = dict(hist, messages=len(keep),
+                                       items=sum(len(o['items']) for o in keep))
+    JOB_HEADERS['fetch_producer'] = F.HEADER
+    submit(ctx, 'fetch_producer', F.CASE_TYPE, cases, F.CHECKER, 'size',
+           lambda i: {'message': keep[i]['d'].hex(),
+                      'message_text': keep[i]['d'][:400].decode('latin-1'),
+                      'attrs': [t.decode('latin-1') for t in keep[i]['attr_texts']],
+                      'impl': keep[i]['whole'][:1200].decode('latin-1')})
+
+
+# ================================= (vi) maildir folders with dovecot-keywords
+def section_keywords(ctx) -> None:
+    """see harness/c07_keywords.py"""
+    from .. import c07_keywords as K
+    K.family(ctx, submit, JOB_HEADERS)
+    K.live(ctx)
+
+
+SECTIONS = [section_print, section_leaves, section_live, section_producer,
+            section_fetch_producer, section_keywords]
 
 
 def run(ctx) -> None:
@@ -1164,7 +1239,7 @@ def run(ctx) -> None:
         'guarantee (validated on every response of the live runs by chk_stream)',
         'literal payloads are *OCTET (NUL allowed); numbers are 1*DIGIT without the 32-bit bound',
     ]
-    ctx.check_proofs(['Resp/Check'])
+    ctx.check_proofs(['Resp/Check', 'Resp/FetchProducerCheck', 'Resp/KeywordsCheck'])
     for sec in SECTIONS:
         sec(ctx)
     flush_jobs(ctx)
@@ -1193,6 +1268,14 @@ def replay(ctx, obj) -> int:
                 rc = 1
                 print('ILL-FORMED', v['kind'], v['expected'], v['line'][:300])
         return rc
+    if 'keywords_file' in obj and 'layout' in obj:
+        from .. import c07_keywords as K
+        out, exc = arun(K.live_one(bytes.fromhex(obj['keywords_file']), obj['layout'], True), 120)
+        print(out.decode('latin-1'))
+        bad = G.check_transcript(out)
+        for v in bad:
+            print('ILL-FORMED', v['kind'], v['expected'], v['line'][:300])
+        return 1 if bad else 0
     if 'bytes' in obj:
         b = bytes.fromhex(obj['bytes'])
         print(b)
